@@ -42,7 +42,8 @@ def table() -> dict[str, Prop]:
     from .rules import eff_rules as EF
     reg(Prop("C12", "parse/render-reachable code writes no module, class or instance state other than per-call objects (effect "
              "classification by the type of the object written); no mutable default / class-level mutable; preset objects never "
-             "reach an instance uncopied and configuration objects are built per instance; no ambient inputs",
+             "reach an instance uncopied and configuration objects are built per instance; no ambient inputs; creating and "
+             "configuring an instance writes nothing at module or class level (EFFCFG)",
              [EF.rule_eff, EF.rule_alias, EF.rule_ambient],
              assumptions=["type facts come from the repository's annotations (mypy --strict clean upstream)"],
              not_decided="nothing further of this property is declined: together the rules are the non-interference argument, modulo "
@@ -72,13 +73,18 @@ def table() -> dict[str, Prop]:
              not_decided="global well-nestedness of the emitted tags (follows from the pairing discipline of C02, not shown here)"))
     reg(Prop("C05", "every value reaching an href/src sink is normalizeLink(...) output on which validateLink(...) was tested true on "
              "every path (or a constant, or an env reference entry written by such a sink); the facade delegates to the sanitizer; "
-             "the validator computes (not bad-scheme) or whitelisted-data-image on the lower-cased url; regex language facts of both patterns",
+             "the validator computes (not bad-scheme) or whitelisted-data-image on the lower-cased url; regex language facts of both "
+             "patterns; normalizeLink returns only mdurl.encode output; the cursor passes a parsed destination only behind a successful "
+             "validateLink test (a rejected destination is not consumed)",
              [UR.rule_url, UR.rule_urlre],
              assumptions=["mdurl.encode yields percent-encoded URL-safe ASCII (third party)",
                           "the regex facts are decided by handing the extracted *constant* pattern to the re engine; no repository code runs"],
-             not_decided="that a rejected destination is left as literal text (behaviour of the fallback path)"))
+             not_decided="that a rejected destination renders as exactly its literal text (behaviour of the fallback path; decided is only "
+                         "that it is not consumed)"))
     from .rules import bnd_rules as BN, prog_rules as PG, total_rules as TT
-    reg(Prop("C01", "eight structural necessary conditions of totality: no unguarded index into a source string (BND); line tables "
+    reg(Prop("C01", "structural necessary conditions of totality: no unguarded index into a source string (BND) or into a token / "
+             "delimiter list (TOKBND); every while loop has a variant that each cyclic path strictly moves, and the dispatchers step the "
+             "cursor themselves when no rule matched (LOOPVAR); the nesting cap consumes its range (GUARD); line tables "
              "with their sentinel stay in lockstep (SENT); every recursive rule dispatch is capped by maxNesting (NEST); code "
              "points are validated before chr() (CHR); a rule that reports a match has advanced the cursor, one that does not has "
              "left it alone (PROG); no local can be read before assignment (DEF); no undocumented raise / assert in the phase "
@@ -88,8 +94,9 @@ def table() -> dict[str, Prop]:
                           "endLine arguments of ParserBlock.tokenize are <= lineMax (all resolved callers pass lineMax, their own "
                           "endLine or a scanned nextLine)",
                           "image re-enters the inline parser on a fresh state; its depth is bounded by the label scan's skipToken guard (not checked)"],
-             not_decided="totality itself: termination of every scan loop (only 'a match advances the cursor' is decided, not strict "
-                         "increase), absence of every exception class (KeyError / ValueError from int(), RecursionError inside re)"))
+             not_decided="totality itself: strictness of the advance of a *matching* rule in the two dispatch loops (a contract between "
+                         "dispatcher and rules: decided is that a match writes the cursor, and that every other loop has a variant), "
+                         "absence of every exception class (KeyError / ValueError from int(), RecursionError inside re)"))
     from .rules import token_rules as TK
     reg(Prop("C02", "construction discipline of the token stream: the token constructors keep level bookkeeping (LVL); every rule and "
              "dispatcher is level-neutral on every path and open/close literals agree (PAIR); only push adds tokens / stores the "
@@ -122,7 +129,9 @@ def table() -> dict[str, Prop]:
     reg(Prop("C17", "input normalisation is first and complete: normalize is the first core rule in the table and in every preset, "
              "and the string it stores back has, on every path, no CR LF pair, no lone CR and no NUL left (NORM, with the regex "
              "constants decided as languages); column frames: every tab stop outside the constructor is computed on an absolute "
-             "column, stores to bsCount keep it absolute, per-line marker flags in column arithmetic come from their own line (FRAME)",
+             "column - on every alternative of a conditional column expression -, stores to bsCount keep it absolute, per-line marker "
+             "flags in column arithmetic come from their own line, and a line-table cell used through a local is not hoisted out of a "
+             "loop that moves to other lines (FRAME)",
              [FR.rule_norm, FR.rule_frame],
              assumptions=["the regex language facts are decided by handing the extracted constant patterns to the re engine on all "
                           "strings over a three-letter alphabet up to length 5; no repository code runs"],
@@ -139,7 +148,9 @@ def table() -> dict[str, Prop]:
     reg(Prop("C09", "the four tables of escapable characters (escape rule, ASCII-punctuation predicate, unescapeAll, ESCAPE_CHAR) denote "
              "one set, the 32 ASCII punctuation characters; escape and entity emit the placeholder kind text_special carrying the "
              "literal (TABLES); the placeholder is turned back into text in every list the inline parser fills, image descriptions "
-             "included (LIFE); text accumulators are never overwritten inside their loop (ACCUM)",
+             "included, by an eliminator no return of which bypasses its loop and which calls itself on the children of every "
+             "element (LIFE); text accumulators are never overwritten inside their loop, and table rows are cut at pipes only by the "
+             "escape-aware splitter (ACCUM)",
              [PL.rule_tables, TK.rule_life, PL.rule_accum],
              not_decided="literalness in each of the seven inline contexts for every text t (behaviour of the inline rules on runtime "
                          "strings), in particular the escape handling inside link titles / destinations"))
@@ -167,14 +178,16 @@ def table() -> dict[str, Prop]:
     reg(Prop("C18", "renderer-only options (xhtmlOut, breaks, langPrefix, highlight) are read only by their documented render methods, "
              "by nothing in the parse phase, and the self-closing spelling hangs on xhtmlOut's true branch at every site (OPTREAD); "
              "the inline phase is closed over (content, md, env, token list) - nothing reachable from ParserInline.parse sees a block "
-             "or core state (INCLOSE); the parse phase writes per-call objects only (EFF); the placeholder eliminator also runs in "
-             "inline mode, i.e. covers every inline token of the stream (LIFE)",
+             "or core state, every core rule that walks the block stream visits all of it, and every inline token reaches the inline "
+             "parser on every path of the loop that fills them (INCLOSE); the parse phase writes per-call objects only (EFF); the "
+             "placeholder eliminator also runs in inline mode, i.e. covers every inline token of the stream (LIFE)",
              [TY.rule_optread, TY.rule_inclose, EF.rule_eff, TK.rule_life],
              not_decided="that each block context hands the inline text over unchanged (trimming / cell splitting are behaviour of the "
                          "block rules), and parseInline == the single paragraph's children as an equality of two parses"))
     reg(Prop("C19", "the typographic rules write only `.content` of tokens under a `type == 'text'` fact (and, for the replacements, "
              "outside autolinks, whose bookkeeping no path can bypass), never restructure a token list or build tokens; replaceAt "
-             "substitutes exactly one character and is called with the apostrophe / configured quotes (TYPO); the core pipeline runs "
+             "substitutes exactly one character and is called with the apostrophe / configured quotes; positions taken from one regex "
+             "match are translated by the same offset everywhere in a function (TYPO); the core pipeline runs "
              "inline < replacements, smartquotes < text_join (ORDER); escape / entity emit text_special, never plain text (TABLES)",
              [TY.rule_typo, TY.rule_order, PL.rule_tables],
              not_decided="index bookkeeping of replaceAt for multi-character quotes (pos arithmetic), and that smartquotes leaves "
@@ -184,7 +197,7 @@ def table() -> dict[str, Prop]:
              "(lookup dominates dispatch, stored on every exit past a miss), the backtick closer cache, the delimiter lower bounds "
              "(read key == written key, jump table used on every step), the paren-depth cap inside the destination scan, cursor-to-"
              "end when the nesting cap is hit (GUARD); every recursive dispatch is capped by maxNesting (NEST); a block rule "
-             "consumes what it scans (SCAN)",
+             "consumes what it scans (SCAN); every while loop has a variant (LOOPVAR)",
              [GD.rule_guard, TT.rule_nest, GD.rule_scan],
              not_decided="the growth law itself (work per character as the input doubles) and regex backtracking inside `re`"))
     # rules shared across properties (appended here because their modules are imported above)
@@ -214,11 +227,13 @@ NOT_APPLICABLE["C06"] = ("a metamorphic relation between the parses of two diffe
 TECHNIQUE = {
     "C20": "dominance and must-pass-through checks of the memo / cache / bound guards on per-function CFGs; structural equality "
            "of the lower-bound table's read and write keys; copy-origin (reaching definitions) analysis of the line cursor "
-           "against the lookahead cursor",
+           "against the lookahead cursor; loop-variant check of every while loop",
     "C18": "enumeration of every option read into a key -> reader table checked against the documented readers over the call "
-           "graph; type-based closure check of the inline phase; write-effect classification",
+           "graph; type-based closure check of the inline phase; iteration-form and must-pass-through checks of the core rules' "
+           "loops over the block stream; write-effect classification",
     "C19": "who-may-write analysis of the typographic rule modules with predicate dominance (type == 'text', autolink counter) "
-           "over per-function CFGs; must-pass-through check of the autolink bookkeeping; rule-table order check",
+           "over per-function CFGs; must-pass-through check of the autolink bookkeeping; sibling agreement of match-position "
+           "translations; rule-table order check",
     "C16": "alias-chain check of the env object over the resolved call graph; reaching-definition check that every reference-table "
            "key is a normalizeReference result; predicate dominance of the first-wins guard; transform-chain recognition of the "
            "label normaliser; sibling agreement of the three destination / title consumers",
@@ -228,10 +243,12 @@ TECHNIQUE = {
     "C08": "provenance (taint-style) analysis over reaching definitions with an allowed-transform grammar; unit (column vs "
            "character) typing of getLines arguments; predicate-dominance check of the padding strip",
     "C09": "set equality of character tables extracted from literals and regex ASTs; traversal-coverage analysis of the "
-           "placeholder eliminator; accumulator-overwrite lint",
+           "placeholder eliminator (coverage, totality, closure under children); accumulator-overwrite and escape-unaware-"
+           "operation lints",
     "C17": "forward dataflow of normalisation facts (no-CRLF / no-CR / no-NUL) through the normalize rule; regex-language "
            "decision of the extracted constants; dimension (absolute vs relative column) check of all tab-stop arithmetic and "
-           "bsCount stores; per-iteration definite assignment of the marker flags",
+           "bsCount stores (every alternative of conditional expressions); per-iteration definite assignment of the marker "
+           "flags; stale-hoist check of line-table cells",
     "C07": "value numbering with symbolic entry values (context fields and line-table cells restored at every return, "
            "co-inductive over the rule set); must-pass-through / dominance checks for the freshness of tight and parentType; "
            "sibling lockstep of the save lists",
@@ -243,13 +260,15 @@ TECHNIQUE = {
            "`not silent` via predicate dataflow; traversal-coverage analysis of the placeholder eliminator",
     "C01": "zone (difference-bound) dataflow over per-function CFGs for index bounds with validated entry contracts; value "
            "numbering with symbolic entry values for cursor progress / restoration; definite-assignment dataflow with flag "
-           "correlation; sibling lockstep and who-may-raise queries",
+           "correlation (origin classes); loop-variant check of every while loop (zone facts against a ghost snapshot of the "
+           "iteration start, must-pass-through for the dispatcher fallback); sibling lockstep and who-may-raise queries",
     "C04": "taint-style decomposition of renderer return values over reaching definitions; dominance of the html-option test "
            "via predicate dataflow; literal-vocabulary check of all token construction sites",
     "C05": "forward dataflow over per-function CFGs with a sanitizer lattice (Const/Env/NormChecked/NormUnchecked/Raw); "
-           "truth-table simulation of validateLink; regex-AST facts",
+           "truth-table simulation of validateLink; regex-AST facts; edge dominance of the destination cursor store by the "
+           "validator test",
     "C12": "write-effect classification by inferred object type over the API-reachable call graph; alias/taint check of preset "
-           "objects; import allow-list",
+           "objects; import allow-list; the same effect classification over the construction / configuration phase",
     "C13": "write-effect classification (no shared writes) plus a CFG reachability check that nothing mutates the chain cache "
            "after its publication",
     "C14": "write-effect classification plus CFG comparison of the normal and the exceptional successor sets of every yield in a "
